@@ -197,6 +197,21 @@ def exec_case(sub, case, stats, excludes=()):
         if v.case is None:
             v.case = case
         raise
+    except Exception as e:
+        # an exception escaping the code under test (innermost frame inside the repository) on a case of the property's
+        # domain is an observation, not a harness error; anything raised by the harness itself stays a harness error
+        tb = e.__traceback__
+        last = None
+        while tb is not None:
+            last = tb.tb_frame.f_code.co_filename
+            tb = tb.tb_next
+        if last and os.path.realpath(last).startswith(os.path.realpath(REPO).rstrip('/') + '/'):
+            stats.evaluations += 1
+            v = Violation('exception escaped from rxsci on an input of the domain: %r' % (e,),
+                          traceback=''.join(traceback.format_exception(type(e), e, e.__traceback__))[-1500:])
+            v.case = case
+            raise v
+        raise
     stats.record(case, info)
 
 
@@ -265,7 +280,32 @@ def _run_hypothesis(sub, n, hseed, stats, excludes):
     except (herr.Unsatisfiable, herr.FailedHealthCheck) as e:
         raise HarnessError('generator problem in %s: %r' % (sub.name, e))
     except herr.Flaky as e:
-        raise HarnessError('non-deterministic case in %s: %r' % (sub.name, e))
+        _flaky(sub, e)
+
+
+def _flaky(sub, e):
+    """Hypothesis could not reproduce a failure from its case alone.  The harness is deterministic by construction, so
+    this means the outcome depends on earlier cases, i.e. the code under test keeps state between subscriptions: if a
+    Violation is attached it is reported (flagged as such); otherwise it is a harness error."""
+    found = []
+
+    def walk(x):
+        if isinstance(x, Violation):
+            found.append(x)
+        for y in getattr(x, 'exceptions', ()) or ():
+            walk(y)
+        if x.__cause__ is not None:
+            walk(x.__cause__)
+        if x.__context__ is not None and x.__context__ is not x.__cause__:
+            walk(x.__context__)
+    walk(e)
+    if found:
+        v = found[0]
+        nv = Violation('[not reproducible from the case alone: the outcome depends on earlier cases, state leaks between '
+                       'subscriptions] ' + v.msg, **v.details)
+        nv.case = v.case
+        raise nv
+    raise HarnessError('non-deterministic case in %s: %r' % (sub.name, e))
 
 
 def _run_fuzz(sub, tier, seed, shard, nshards, stats, out):
@@ -346,7 +386,7 @@ def _run_machine(sub, n, hseed, stats, excludes):
     except (herr.Unsatisfiable, herr.FailedHealthCheck) as e:
         raise HarnessError('generator problem in %s: %r' % (sub.name, e))
     except herr.Flaky as e:
-        raise HarnessError('non-deterministic case in %s: %r' % (sub.name, e))
+        _flaky(sub, e)
 
 
 # ---------------------------------------------------------------------------
